@@ -53,39 +53,57 @@ class Names:
         return self.m.get(n) or ('?' + str(n))
 
 
-def observe(nm, g):
-    """Everything the property lists, through the graph API, canonicalised."""
+def observe(nm, g, order=0):
+    """Everything the property lists, through the graph API, canonicalised. `order` varies the order in which the
+    observations are made (0: feasibility first, 1: connection sets and connector settings first, 2: reversed) - what an
+    object reports must not depend on what was asked before (a feasibility read re-synchronises shared node state)."""
     out = {}
     gr = g.graph
-    out['nodes'] = sorted(nm(n) for n in gr.nodes)
-    out['edges'] = sorted((nm(u), nm(v), str(d.get('type'))) for u, v, d in gr.edges(data=True))
-    out['feasible'] = bool(g.feasible)
-    out['final'] = bool(g.final)
-    nxt = list(g.get_ordered_next_choice_nodes())
-    out['next'] = [nm(c) for c in nxt]
-    opts, sets = {}, {}
-    for c in nxt:
-        if isinstance(c, SelectionChoiceNode):
-            opts[nm(c)] = [nm(o) for o in g.get_option_nodes(c)]
-        elif isinstance(c, ConnectionChoiceNode):
-            try:
-                es = [sorted((nm(u), nm(v)) for u, v in edges) for edges in itertools.islice(c.iter_conn_edges(g), 40)]
-                sets[nm(c)] = sorted(es)
-            except Exception as e:
-                sets[nm(c)] = 'exc:' + type(e).__name__
-    out['options'] = opts
-    out['conn_sets'] = sets
-    degs = {}
-    for c in gr.nodes:
-        if isinstance(c, ConnectionChoiceNode):
-            try:
-                settings, node_map = c._get_assign_nodes(g)
-                degs[nm(c)] = [[(nm(nd), n.conns, n.min_conns, bool(n.rep)) for nd, n in zip(node_map[i], side)]
-                               for i, side in enumerate((settings.src, settings.tgt))]
-            except Exception as e:
-                degs[nm(c)] = 'exc:' + type(e).__name__
-    out['degrees'] = degs
-    out['dv_values'] = sorted((nm(n), v) for n, v in g.des_var_values.items())
+
+    def basic():
+        out['nodes'] = sorted(nm(n) for n in gr.nodes)
+        out['edges'] = sorted((nm(u), nm(v), str(d.get('type'))) for u, v, d in gr.edges(data=True))
+
+    def feas():
+        out['feasible'] = bool(g.feasible)
+        out['final'] = bool(g.final)
+
+    def choices():
+        nxt = list(g.get_ordered_next_choice_nodes())
+        out['next'] = [nm(c) for c in nxt]
+        opts, sets = {}, {}
+        for c in nxt:
+            if isinstance(c, SelectionChoiceNode):
+                opts[nm(c)] = [nm(o) for o in g.get_option_nodes(c)]
+            elif isinstance(c, ConnectionChoiceNode):
+                try:
+                    es = [sorted((nm(u), nm(v)) for u, v in edges) for edges in itertools.islice(c.iter_conn_edges(g), 40)]
+                    sets[nm(c)] = sorted(es)
+                except Exception as e:
+                    sets[nm(c)] = 'exc:' + type(e).__name__
+        out['options'] = opts
+        out['conn_sets'] = sets
+
+    def degrees():
+        degs = {}
+        for c in gr.nodes:
+            if isinstance(c, ConnectionChoiceNode):
+                try:
+                    settings, node_map = c._get_assign_nodes(g)
+                    degs[nm(c)] = [[(nm(nd), n.conns, n.min_conns, bool(n.rep)) for nd, n in zip(node_map[i], side)]
+                                   for i, side in enumerate((settings.src, settings.tgt))]
+                except Exception as e:
+                    degs[nm(c)] = 'exc:' + type(e).__name__
+        out['degrees'] = degs
+
+    def values():
+        out['dv_values'] = sorted((nm(n), v) for n, v in g.des_var_values.items())
+        out['constraints'] = [(str(cc.type), [nm(n) for n in cc.nodes]) for cc in g.get_choice_constraints()]
+
+    steps = {0: [basic, feas, choices, degrees, values], 1: [choices, degrees, basic, values, feas],
+             2: [values, degrees, choices, feas, basic]}[order % 3]
+    for f in steps:
+        f()
     return out
 
 
@@ -240,7 +258,7 @@ class History:
         ok = True
         for i, g in enumerate(self.live):
             try:
-                now = observe(self.nm, g)
+                now = observe(self.nm, g, order=step + i)
             except Exception as e:
                 now = {'exc': repr(e)[:200]}
             self.acts.append({'look': i})
